@@ -70,6 +70,8 @@ if TYPE_CHECKING:
 
     import pytools.tag
 
+    from pytato.array import Reshape
+
 __doc__ = """
 .. currentmodule:: pytato.analysis
 
@@ -437,7 +439,11 @@ class ListOfDirectPredecessorsGetter(
 
     map_roll = _map_index_remapping_base
     map_axis_permutation = _map_index_remapping_base
-    map_reshape = _map_index_remapping_base
+
+    def map_reshape(self, expr: Reshape) -> list[ArrayOrNames]:
+        # newshape is stored (not derived from the operand): its array-valued
+        # components are traversed (and possibly replaced) by every mapper
+        return self._get_preds_from_shape(expr.newshape) + [expr.array]
 
     def _map_input_base(self, expr: InputArgumentBase) \
             -> list[ArrayOrNames]:
